@@ -108,7 +108,7 @@ CLAIMS["C02"] = (
 
 CLAIMS["C11"] = (
     "table validation against an independent copy of the 5G reliability sequence (+ permutation / dominance), closed forms and truth tables of the SC f/g/partial-sum functions, frozen-value selector agreement (sibling rule + polarity engine)",
-    "Polar codes: kernel literal and number of Kronecker steps; the reliability table file is parsed by the checker and must be a permutation of 0..1023, respect bitwise-subset dominance and equal the TS 38.212 sequence entry by entry; the frozen set is the first N-k ranked positions below N and user masks are validated; encoder, SC leaf and polar-BP initialisation agree on the frozen value (BP: +clip for a frozen 0, by the library's LLR polarity); the SC recursion has the textbook shape (f by regime, g = y2 + (1-2x) y1 un-saturated, partial sums (x1 xor x2, x2), consistent half / even-odd splits, helper closed forms). Equality of the XOR network with the Kronecker matrix, the BP schedule and SC decisions as values are not decided.",
+    "Polar codes: kernel literal and number of Kronecker steps; the reliability table file is parsed by the checker and must be a permutation of 0..1023, respect bitwise-subset dominance and equal the TS 38.212 sequence entry by entry; the frozen set is the first N-k ranked positions below N and user masks are validated; encoder, SC leaf and polar-BP initialisation agree on the frozen value (BP: +clip for a frozen 0, by the library's LLR polarity); the SC recursion has the textbook shape (f by regime, g = y2 + (1-2x) y1 un-saturated, partial sums (x1 xor x2, x2), consistent half / even-odd splits, helper closed forms). The encoder's transform is tabulated (own arithmetic) on every unit vector for N = 2..32 against u F^(x)m, columns bit-reversed for the interleaved variant, and the per-block encoder on every message for N = 4, 8 (both frozen values, both variants); the polar BP decoder keeps the answers of words that passed the stop criterion outside the re-initialised graph. SC decisions as values for arbitrary LLRs and BP convergence are not decided.",
     "Trusted: /verif/fixtures/ts38212_polar_sequence.txt (an independent copy of TS 38.212 Table 5.3.1.2-1; it agrees entry by entry with the repository's table on the pinned tree), recognisers in props/c11.py.",
     "DESIGN.md §2 C11",
 )
